@@ -179,9 +179,20 @@ def rewrite_continue(text, log):
         if lo < 0:
             raise ExtractError('D14: no enclosing loop body')
         lc = lex.match_bracket(msk, lo)
-        # the enclosing block must be a loop body
-        lh = max(msk.rfind(';', 0, lo), msk.rfind('{', 0, lo), msk.rfind('}', 0, lo)) + 1
-        if not re.match(r'\s*(for|while|loop)\b', msk[lh:lo]):
+        # the enclosing block must be a loop body, or an `else` block (from an earlier D14 step) that ends one
+        cur_open = lo
+        while True:
+            lh = max(msk.rfind(';', 0, cur_open), msk.rfind('{', 0, cur_open), msk.rfind('}', 0, cur_open)) + 1
+            hdr = msk[lh:cur_open]
+            if re.match(r'\s*(for|while|loop)\b', hdr):
+                break
+            if re.match(r'\s*else\s*$', hdr):
+                cur_close = lex.match_bracket(msk, cur_open)
+                outer = _enclosing_open(msk, lh - 1)
+                if outer < 0 or msk[cur_close + 1:lex.match_bracket(msk, outer)].strip():
+                    raise ExtractError('D14: else block does not end the loop iteration')
+                cur_open = outer
+                continue
             raise ExtractError('D14: continue not directly inside a loop body')
         log.append(('D14', 'continue removed; rest of loop body moved into else branch', text.count('\n', 0, m.start())))
         blank = ''.join(ch if ch == '\n' else ' ' for ch in text[m.start():m.end()])
